@@ -233,15 +233,17 @@ def get_config_contract(repo: Repo):
 
 
 def field_default_contract(repo: Repo):
-    why = ("a field's default is its Field.default; else its default_factory (called only on request); a name without a Field falls back to the class attribute; "
-           "MISSING means 'no default'")
+    why = ("a field's default is its Field.default; else its default_factory (called only on request); a name without a Field falls back to the class attribute "
+           "looked up like dataclasses does (getattr: inherited attributes count); MISSING means 'no default'")
     F = "B.dataclass_fields.get(name)"
     exp = [
         (f"{F}.default", {f"bool({F})": True, f"{F}.default is MISSING": False}, []),
         (f"{F}.default_factory()", {f"bool({F})": True, f"{F}.default is MISSING": True, "bool(call_factory)": True, f"{F}.default_factory is MISSING": False}, []),
         (f"{F}.default_factory", {f"bool({F})": True, f"{F}.default is MISSING": True, "bool(call_factory)": True, f"{F}.default_factory is MISSING": True}, []),
         (f"{F}.default_factory", {f"bool({F})": True, f"{F}.default is MISSING": True, "bool(call_factory)": False}, []),
-        ("B.namespace.get(name, MISSING)", {f"bool({F})": False}, []),
+        # dataclasses' own rule for a name without a Field of its own: default = getattr(cls, name, MISSING), so a class attribute
+        # inherited from a parent counts (class B(A): x: int  with  A.x = 1  has the default 1)
+        ("getattr(B.cls, name, MISSING)", {f"bool({F})": False}, []),
     ]
     return outcome_contract(repo, "CodeBuilder.get_field_default", exp, [Sym("name")], {"call_factory": Sym("call_factory")}, why=why)
 
